@@ -14,6 +14,7 @@ import TantivyModel.Proofs.RecorderRemap
 import TantivyModel.Proofs.BlockCursorDrain
 import TantivyModel.Proofs.PositionReader
 import TantivyModel.Proofs.PositionsAfterSeeks
+import TantivyModel.Proofs.FieldSerializer
 /-!
 # C07 — The inverted index records exactly the terms, documents, frequencies, positions
 
@@ -429,6 +430,27 @@ theorem C07_positions_after_seeks (docs : List Nat) (perDoc : List (List Nat))
   intro i hi
   exact hslice i (by simpa using (List.mem_filter.mp hi).2)
 
+/-- **From the term ordinal to the term's bytes.**  Write the terms of a field one after the
+other through the `FieldSerializer` (postings and positions appended back to back, one `TermInfo`
+each) and store the TermInfos in a `TermInfoStore`: the store's hypothesis of
+`C07_terminfo_roundtrip` holds by construction (ranges ordered and back to back), ordinal `n` returns
+the `n`-th TermInfo, and slicing the two files at its ranges returns exactly the `n`-th term's
+`doc_freq`, postings bytes and position bytes — for any number of terms, as long as the files stay
+below `2^56` bytes. -/
+theorem C07_field_serializer (ts : List Recorder.TermBytes)
+    (h1 : (ts.flatMap (·.postings)).length < 2 ^ 56) (h2 : (ts.flatMap (·.positions)).length < 2 ^ 56)
+    (h3 : ∀ t ∈ ts, t.docFreq < 2 ^ 56) (n : Nat) (hn : n < ts.length) :
+    TermInfoStore.GoodStore TermInfoStore.BLOCK_LEN (FieldSerializer.writeTerms ts).infos ∧
+    ∃ i, TermInfoStore.get TermInfoStore.BLOCK_LEN
+        (TermInfoStore.write TermInfoStore.BLOCK_LEN (FieldSerializer.writeTerms ts).infos) n = some i ∧
+      FieldSerializer.sliceTerm (FieldSerializer.writeTerms ts) i = ts[n] := by
+  have hg := FieldSerializer.writeTerms_goodStore TermInfoStore.BLOCK_LEN ts h1 h2 h3
+  have he := FieldSerializer.writeTerms_eq ts
+  have hlen : (FieldSerializer.writeTerms ts).infos.length = ts.length := by
+    rw [he.2.2, FieldSerializer.infosFrom_length]
+  refine ⟨hg, _, C07_terminfo_roundtrip _ (by decide) _ hg n (by rw [hlen]; exact hn), ?_⟩
+  exact FieldSerializer.slice_writeTerms ts n hn
+
 /-! ### field norms -/
 
 theorem fieldnorm_roundtrip (i : Nat) (hi : i < 256) :
@@ -535,6 +557,8 @@ example : (BlockPostings.open cfg .basic .basic 3 [129, 132, 132]).skip.skipInfo
 example : ∀ r ∈ [(2, 2), (0, 1), (1, 3)], r.1 + r.2 ≤ ([5, 0, 7, 9] : List Nat).length := by decide
 example : ValidList [0, 3, 9] (([[1, 2], [5], [0, 0, 7]] : List (List Nat)).map List.length) :=
   ⟨by decide, by decide, by decide, by decide⟩
+example : (FieldSerializer.writeTerms [⟨2, [1, 2, 3], [9]⟩, ⟨1, [7], []⟩]).infos =
+    [⟨2, 0, 3, 0, 1⟩, ⟨1, 3, 4, 1, 1⟩] := by decide
 example : 0 < TermInfoStore.BLOCK_LEN ∧ TermInfoStore.BLOCK_LEN = 256 := by decide
 theorem C07_terminfo_example_good :
     TermInfoStore.GoodStore 2 [⟨512, 51, 57, 110, 134⟩, ⟨3, 57, 60, 134, 134⟩, ⟨9, 70, 100, 140, 150⟩] := by
